@@ -501,7 +501,7 @@ func c15Rounds(r *ev.Run) {
 }
 
 func init() {
-	register("C15", "exploration", func(r *ev.Run) {
+	registerChild("C15", "exploration", "race", func(r *ev.Run) {
 		if r.Only() == "" || r.Only()[0] != 'm' {
 			c15Sample(r)
 		}
